@@ -249,7 +249,7 @@ func (p *Proxy) handleRawMessage(rawMessage *RawMessage) (*Message, error) {
 	}
 	if msg.IsRequest() && rawMessage.TcpConn != nil {
 		host, port, _, err := p.getNextReponseHop(msg)
-		if strings.HasPrefix(host, "[") {
+		if len(host) >= 2 && strings.HasPrefix(host, "[") && strings.HasSuffix(host, "]") {
 			host = host[1 : len(host)-1]
 		}
 		zap.L().Info("receive a message from tcp", zap.String("host", host), zap.Int("port", port))
